@@ -204,6 +204,14 @@ func genVest(g *Gen, n int) {
 			g.emit("v.createPool %s ok %s %d %s", atok(va), extra, g.pickI(sec, 3600*sec), vts[0])
 			pools = append(pools, gPool{va, "ok", now + 3600*sec, extra, vts[0]})
 			g.emit("v.q.pools %s", va)
+			// the owner of this ORDINARY pool is itself recorded as a genesis vesting account: accounts sent
+			// from the pool are not genesis-derived (only the pool's own flag counts)
+			g.emit("v.trace %s 1 0 0", va)
+			fresh++
+			g.emit("v.send %s %s ok 1 %d", atok(va), atok(vaddr(fresh)), g.intn(2))
+			cvas = append(cvas, vaddr(fresh))
+			g.emit("v.q.summary 1")
+			g.emit("v.q.summary 0")
 			g.count("shape/vesting-owner-above-spendable")
 		case 2:
 			// a vesting type whose lockup + vesting exceeds what one time.Duration holds (each is valid
@@ -247,7 +255,11 @@ func genVest(g *Gen, n int) {
 			g.emit("v.fund %s [aaa=1000,uc4e=1000,zzz=1000]", o)
 			fresh++
 			st := now/sec + int64(g.intn(100)) - 50
-			g.emit("v.createVA %s %s %s %d %d", atok(o), atok(vaddr(fresh)), g.pick("[zzz=5,aaa=7]", "[zzz=300,uc4e=20,aaa=1]", "[uc4e=9,aaa=9]"), st, st+g.pickI(1000, 86400))
+			en := st + g.pickI(1000, 86400)
+			if g.chance(0.3) {
+				en = g.pickI(9223372036854775807, 9223372036854775807-3600, 9223371974719179008) // "never": the largest end times
+			}
+			g.emit("v.createVA %s %s %s %d %d", atok(o), atok(vaddr(fresh)), g.pick("[zzz=5,aaa=7]", "[zzz=300,uc4e=20,aaa=1]", "[uc4e=9,aaa=9]"), st, en)
 			g.emit("v.q.locked %s", vaddr(fresh))
 			cvas = append(cvas, vaddr(fresh))
 			g.count("shape/unsorted-multi-denom-createVA")
